@@ -82,40 +82,101 @@ def gen_ll1_candidate(rng, terms, start='E', max_nts=4):
     return prods
 
 
+def _gen_group(rng, terms, later, prefix, depth):
+    """alternatives that all start with `prefix`; continuations start with different terminals,
+    some continuations are nested groups (common prefixes inside common prefixes)"""
+    n_branches = rng.randint(2, min(5, len(terms)))
+    firsts = rng.sample(terms, n_branches)
+    blocks = []
+    for f in firsts:
+        if depth < 2 and rng.random() < 0.35:
+            blocks.append(_gen_group(rng, terms, later, prefix + (f,), depth + 1))
+        else:
+            tail = tuple(rng.choice(later) if later and rng.random() < 0.4 else rng.choice(terms)
+                         for _ in range(rng.randint(0, 2)))
+            blocks.append([prefix + (f,) + tail])
+    if rng.random() < 0.3:
+        blocks.insert(rng.randint(0, len(blocks)), [prefix])
+    if rng.random() < 0.5:
+        rng.shuffle(blocks)
+    return [alt for block in blocks for alt in block]
+
+
 def gen_prefix_group_grammar(rng, terms, start='E', max_nts=3):
     """grammars whose alternatives come in groups sharing a prefix, the continuations of one
-    group starting with different terminals (at most one empty): not LL(1) as written, but
-    conflict-free after left factorization with good probability. Groups of up to 7."""
+    group starting with different terminals (at most one empty), groups nested up to three
+    levels (a b c | a b d | a x y): not LL(1) as written, but conflict-free after left
+    factorization with good probability. Groups of up to 7 alternatives."""
     nts = [start] + rng.sample([n for n in NT_NAMES if n != start], rng.randint(0, max_nts - 1))
     prods = {}
     for idx, nt in enumerate(nts):
         later = nts[idx + 1:]
-        n_groups = rng.randint(1, 2)
-        heads = rng.sample(terms, min(n_groups, len(terms)))
+        heads = rng.sample(terms, min(rng.randint(1, 2), len(terms)))
         alts = []
         for head in heads:
             prefix = (head,) + tuple(rng.choice(terms) for _ in range(rng.choice([0, 0, 1, 2])))
-            size = rng.randint(1, min(7, len(terms) + 1))
-            conts = rng.sample(terms, min(size, len(terms)))
-            group = []
-            for c in conts:
-                alt = [c]
-                for _ in range(rng.randint(0, 2)):
-                    alt.append(rng.choice(later) if later and rng.random() < 0.4 else rng.choice(terms))
-                group.append(prefix + tuple(alt))
-            if size > len(conts) or rng.random() < 0.3:
-                group.insert(rng.randint(0, len(group)), prefix)
-            if rng.random() < 0.3 and len(group) >= 2:
-                # nested group: two alternatives share one more symbol
-                a = group[rng.randrange(len(group))]
-                if len(a) > len(prefix):
-                    group.insert(group.index(a) + 1, a + (rng.choice(terms),))
-            alts.extend(group)
+            if rng.random() < 0.5:
+                alts.extend(_gen_group(rng, terms, later, prefix, 0))
+            else:
+                size = rng.randint(1, min(7, len(terms) + 1))
+                conts = rng.sample(terms, min(size, len(terms)))
+                group = []
+                for c in conts:
+                    alt = [c]
+                    for _ in range(rng.randint(0, 2)):
+                        alt.append(rng.choice(later) if later and rng.random() < 0.4 else rng.choice(terms))
+                    group.append(prefix + tuple(alt))
+                if size > len(conts) or rng.random() < 0.3:
+                    group.insert(rng.randint(0, len(group)), prefix)
+                alts.extend(group)
         if nt != start and rng.random() < 0.3:
             alts.append(())
         alts = [a for i, a in enumerate(alts) if i == 0 or a != alts[i - 1]]
         prods[nt] = alts
     return prods
+
+
+def shuffle_declaration_order(rng, prods):
+    """the same grammar with its symbols declared in another order (dict order)"""
+    items = list(prods.items())
+    r = rng.random()
+    if r < 0.4:
+        rng.shuffle(items)
+    elif r < 0.7:
+        items.reverse()      # bottom-up declaration
+    return dict(items)
+
+
+def right_recursion_behind_nullables(rng, terms, order):
+    """NOT left recursive: X -> N1..Nk B X tail | t with nullable N1..Nk and a non-nullable
+    non-terminal B in front of the recursive X. `order` = relative alphabetical order of the
+    names of X (index 0), B (index 1) and N1..Nk."""
+    k = len(order) - 2
+    pool = ['A', 'B', 'C', 'D', 'F', 'G', 'H', 'K']
+    sorted_names = sorted(pool[:k + 2])
+    names = [None] * (k + 2)
+    for rank, who in enumerate(order):
+        names[who] = sorted_names[rank]
+    x, b, nulls = names[0], names[1], names[2:]
+    prods = {}
+    for n in nulls:
+        alts = [(), (rng.choice(terms),)]
+        rng.shuffle(alts)
+        prods[n] = alts
+    prods[b] = [(rng.choice(terms),)] + ([(rng.choice(terms), rng.choice(terms))] if rng.random() < 0.4 else [])
+    tail = tuple(rng.choice(terms) for _ in range(rng.randint(0, 1)))
+    alts = [tuple(nulls) + (b, x) + tail, (rng.choice(terms),)]
+    rng.shuffle(alts)
+    prods[x] = alts
+    mode = rng.randrange(3)
+    if mode == 0:
+        start = x
+    else:
+        start = 'E' if 'E' not in prods else 'Z'
+        prods[start] = [(rng.choice(terms), x) if mode == 1 else (x, rng.choice(terms))]
+    items = list(prods.items())
+    rng.shuffle(items)
+    return dict(items), start
 
 
 def gen_follow_context_candidate(rng, terms, start='E'):
